@@ -158,7 +158,10 @@ func (s *c17state) feed(in []byte, class string) {
 		// the result must not depend on how the reader hands out the bytes; a reader or a destination that fails
 		// must not make the decoder panic either
 		var one bytes.Buffer
-		err1 := s.guard("Cbor2JsonManyObjects(one byte at a time)", in, false, func() error { one.Reset(); return cbor.Cbor2JsonManyObjects(iotest.OneByteReader(bytes.NewReader(in)), &one) })
+		err1 := s.guard("Cbor2JsonManyObjects(one byte at a time)", in, false, func() error {
+			one.Reset()
+			return cbor.Cbor2JsonManyObjects(iotest.OneByteReader(bytes.NewReader(in)), &one)
+		})
 		if (err0 == nil) != (err1 == nil) || !bytes.Equal(one.Bytes(), sink.Bytes()) {
 			s.out.Violate("chunking-dependent", fmt.Sprintf("decoding a %d-byte input from a reader that returns one byte per Read gives (%q, err=%v), from a plain reader (%q, err=%v)", len(in), clipb(one.Bytes()), err1, clipb(sink.Bytes()), err0), s.rep())
 		}
